@@ -422,11 +422,10 @@ def build_zone(zclass, relativize, fresh):
     if fresh:
         return zone
     o = lambda n: base.owner(n, relativize)  # noqa: E731
-    sub = dns.name.from_text("sub", None)
-    nssub = dns.name.from_text("ns.sub", None)
-    if not relativize:
-        sub = sub.derelativize(ORIGIN)
-        nssub = nssub.derelativize(ORIGIN)
+    def nm(text):
+        n = dns.name.from_text(text, None)
+        return n if relativize else n.derelativize(ORIGIN)
+
     with zone.writer(True) as txn:
         txn.add(o("@"), 300, base.soa_rdata(1))
         txn.add(o("@"), 300, base.NS_RDATA)
@@ -434,23 +433,31 @@ def build_zone(zclass, relativize, fresh):
         txn.add(o("a"), 300, base.a_rdata(2))
         txn.add(o("a"), dns.rdataset.from_text("IN", "TXT", 300, '"t1"'))
         txn.add(o("b"), 300, base.a_rdata(1))
-        txn.add(sub, 300, dns.rdata.from_text(IN, NS, "ns.sub.example."))
-        txn.add(nssub, 300, base.a_rdata(3))
+        txn.add(nm("sub"), 300, dns.rdata.from_text(IN, NS, "ns.sub.example."))
+        txn.add(nm("ns.sub"), 300, base.a_rdata(3))
+        txn.add(nm("g.d"), 300, base.a_rdata(4))
+        txn.add(nm("h.d"), 300, base.a_rdata(5))
     zone.set_max_versions(None)
-    # a second version that shares most nodes with the first (copy-on-write)
+    # a second version that shares most nodes with the first (copy-on-write) and puts a
+    # delegation ABOVE g.d / h.d, which it does not write (a B-tree zone re-flags them as glue)
     with zone.writer() as txn:
         txn.replace(o("@"), 300, base.soa_rdata(2))
         txn.add(o("b"), 300, base.a_rdata(2))
+        txn.add(nm("d"), 300, dns.rdata.from_text(IN, NS, "g.d.example."))
+    # a third version that removes the delegation again (g.d / h.d re-flagged once more)
+    with zone.writer() as txn:
+        txn.replace(o("@"), 300, base.soa_rdata(3))
+        txn.delete(nm("d"), NS)
     return zone
 
 
 def probe(zclass, relativize, fresh, which, tid):
-    """which = 'latest' | 'older': the version the read transaction is opened on"""
+    """which = 'latest' | 'v<i>': the (i-th retained) version the read transaction is opened on"""
     trace = {"tid": tid, "zclass": zclass, "rel": relativize, "fresh": fresh, "which": which, "ev": []}
     ev = trace["ev"]
     zone = build_zone(zclass, relativize, fresh)
-    if which == "older" and len(zone._versions) > 1:
-        txn = zone.reader(id=zone._versions[0].id)
+    if which.startswith("v") and len(zone._versions) > 1:
+        txn = zone.reader(id=zone._versions[int(which[1:])].id)
     else:
         txn = zone.reader()
     other = zone.reader()  # a second reader, on the newest version: must not be affected either
